@@ -435,21 +435,21 @@ func writeEvidence(verifDir, prop, tier string, seed int, ev evidence) {
 		assumptions = append(assumptions, ev.Spec.Assume...)
 	}
 	cov := map[string]interface{}{
-		"obligations":              ev.Obligations,
-		"discharged":               ev.Discharged,
-		"checker_cmd":              fmt.Sprintf("/verif/bin/govc check -prop %s -tier %s", prop, tier),
-		"trusted_base":             trusted,
-		"samples":                  ev.Samples,
-		"functions_under_contract": ev.Funcs,
-		"obligations_by_kind":      ev.ByKind,
-		"discharged_by_solver":     ev.SolverCount,
-		"solver_seconds":           ev.SolverSecs,
-		"known_findings":           ev.Known,
-		"known_findings_counted_in_discharged": ev.KnownCount,
-		"vacuity_checks":           ev.VacuityChecks,
+		"obligations":                           ev.Obligations,
+		"discharged":                            ev.Discharged,
+		"checker_cmd":                           fmt.Sprintf("/verif/bin/govc check -prop %s -tier %s", prop, tier),
+		"trusted_base":                          trusted,
+		"samples":                               ev.Samples,
+		"functions_under_contract":              ev.Funcs,
+		"obligations_by_kind":                   ev.ByKind,
+		"discharged_by_solver":                  ev.SolverCount,
+		"solver_seconds":                        ev.SolverSecs,
+		"known_findings":                        ev.Known,
+		"known_findings_counted_in_discharged":  ev.KnownCount,
+		"vacuity_checks":                        ev.VacuityChecks,
 		"counterexamples_replayed_on_real_code": ev.Replayed,
-		"load_and_typecheck_s":     round3(ev.Load),
-		"explanation":              "obligations are generated from the SSA of /repo's working tree on this run; each is one SMT query; see DESIGN.md",
+		"load_and_typecheck_s":                  round3(ev.Load),
+		"explanation":                           "obligations are generated from the SSA of /repo's working tree on this run; each is one SMT query; see DESIGN.md",
 	}
 	if ev.Spec != nil && len(ev.Spec.Bounded) > 0 {
 		cov["bounded_checks"] = ev.Spec.Bounded
